@@ -40,12 +40,12 @@ pub(crate) fn run() -> Result<(), Error> {
 
     // Build the known dependencies of our primary target.  This *does* require
     // grabbing locks.  They are dependencies of the primary target, not of
-    // whichever target's script happens to be running (REDO_TARGET), so don't
-    // let redo-ifchange record them against that one.
+    // whichever target's script happens to be running (REDO_TARGET);
+    // redo-ifchange does not record them against that one when REDO_NO_OOB
+    // is set without REDO_UNLOCKED.
     let status = Command::new("redo-ifchange")
         .args(deps.iter().cloned())
         .env(ENV_NO_OOB, "1")
-        .env_remove("REDO_TARGET")
         .spawn()?
         .wait()?;
     if !status.success() {
